@@ -143,11 +143,11 @@ package util
 //@ func DeepCopyString(str string) string
 //@   property C06 C19 C12
 //@   modifies nothing
-//@   ensures[private-copy] result == str && !shared(result)
+//@   ensures[private-copy] result == str && !shared(result) && writable(result)
 //@ func DeepCopyStringFromBytes(str []byte) string
 //@   property C06 C19 C12
 //@   modifies nothing
-//@   ensures[private-copy] len(result) == len(str) && (forall i int :: 0 <= i && i < len(str) ==> result[i] == str[i]) && !shared(result)
+//@   ensures[private-copy] len(result) == len(str) && (forall i int :: 0 <= i && i < len(str) ==> result[i] == str[i]) && !shared(result) && writable(result)
 //@ func DeepCopyStrings(strList []string) []string
 //@   property C06 C19 C12
 //@   modifies nothing
